@@ -107,6 +107,121 @@ pub fn run_any(case: &Case) -> Outcome {
     }
 }
 
+pub const ABORT_CLASS: &str = "process-abort";
+
+/// stdout of a dead worker: the run it was executing and the size of the impossible allocation the
+/// code under test asked for, if (and only if) the allocator's marker is the reason of the death
+fn aborted_run(stdout: &str) -> Option<(u64, usize)> {
+    let mut run = None;
+    let mut size = None;
+    for l in stdout.lines() {
+        if let Some(r) = l.strip_prefix("RUN ") {
+            run = r.trim().parse::<u64>().ok();
+            size = None;
+        } else if let Some(n) = l.strip_prefix(crate::alloc::ABSURD_MARKER) {
+            size = n.trim().parse::<usize>().ok();
+        }
+    }
+    Some((run?, size?))
+}
+
+fn abort_failure(prop: &str, size: usize) -> Failure {
+    crate::exec::fail(&[prop], ABORT_CLASS, 0, format!("the process aborted inside the store: an allocation of {size} bytes was requested (an allocation failure aborts, it does not unwind)"))
+}
+
+/// run one case in a child process; `Some(size)` if the child died on an impossible allocation
+pub fn abort_probe(case: &Case) -> Option<usize> {
+    let dir = verif_dir().join("replays");
+    let _ = std::fs::create_dir_all(&dir);
+    let file = dir.join(format!(".probe-{}.json", std::process::id()));
+    std::fs::write(&file, serde_json::to_string(case).ok()?).ok()?;
+    let exe = std::env::current_exe().ok()?;
+    let out = Command::new(&exe).arg("run-case").arg(&file).stdout(Stdio::piped()).stderr(Stdio::null()).output().ok();
+    let _ = std::fs::remove_file(&file);
+    let out = out?;
+    if out.status.success() {
+        return None;
+    }
+    let s = String::from_utf8_lossy(&out.stdout).to_string();
+    aborted_run(&format!("RUN 0\n{s}")).map(|(_, n)| n)
+}
+
+/// child side of `abort_probe`
+pub fn cmd_run_case(pos: &[String]) -> i32 {
+    let Some(path) = pos.first() else { return 2 };
+    let Ok(txt) = std::fs::read_to_string(path) else { return 2 };
+    let Ok(case) = serde_json::from_str::<Case>(&txt) else { return 2 };
+    let _ = run_any(&case);
+    0
+}
+
+/// the in-process minimiser runs in a child of the driver: a candidate that kills the process (see
+/// above) then costs the minimisation, not the verdict
+fn minimise_in_child(prop: &str, f: &Found, budget_s: u64) -> (Case, Failure, bool) {
+    let fallback = (f.case.clone(), f.failure.clone(), false);
+    let dir = verif_dir().join("replays");
+    let _ = std::fs::create_dir_all(&dir);
+    let inp = dir.join(format!(".min-in-{}.json", std::process::id()));
+    let outp = dir.join(format!(".min-out-{}.json", std::process::id()));
+    let _ = std::fs::remove_file(&outp);
+    if std::fs::write(&inp, serde_json::to_string(f).unwrap()).is_err() {
+        return fallback;
+    }
+    let Ok(exe) = std::env::current_exe() else { return fallback };
+    let st = Command::new(&exe).arg("minimise-case").arg(prop).arg(&inp).arg(&outp).arg(budget_s.to_string()).stdout(Stdio::null()).status();
+    let res = match st {
+        Ok(s) if s.success() => std::fs::read_to_string(&outp).ok().and_then(|t| serde_json::from_str::<(Case, Failure, bool)>(&t).ok()),
+        _ => None,
+    };
+    let _ = std::fs::remove_file(&inp);
+    let _ = std::fs::remove_file(&outp);
+    res.unwrap_or(fallback)
+}
+
+pub fn cmd_minimise_case(pos: &[String]) -> i32 {
+    let (Some(prop), Some(inp), Some(outp)) = (pos.first(), pos.get(1), pos.get(2)) else { return 2 };
+    let budget = pos.get(3).and_then(|b| b.parse::<u64>().ok()).unwrap_or(30);
+    let Ok(txt) = std::fs::read_to_string(inp) else { return 2 };
+    let Ok(f) = serde_json::from_str::<Found>(&txt) else { return 2 };
+    let known = load_known();
+    let r = crate::minimise::minimise(prop, &f.case, &f.failure, budget, &known);
+    match std::fs::write(outp, serde_json::to_string(&r).unwrap()) {
+        Ok(()) => 0,
+        Err(_) => 2,
+    }
+}
+
+/// minimiser for aborts: every candidate is a child process
+fn minimise_abort(case: &Case, budget_s: u64) -> (Case, bool) {
+    let start = Instant::now();
+    let mut best = case.clone();
+    let mut changed = false;
+    let mut chunk = (best.workload.ops.len() / 2).max(1);
+    while chunk >= 1 && start.elapsed().as_secs() < budget_s {
+        let mut i = 0;
+        let mut any = false;
+        while i < best.workload.ops.len() && best.workload.ops.len() > 1 && start.elapsed().as_secs() < budget_s {
+            let mut c = best.clone();
+            let end = (i + chunk).min(c.workload.ops.len());
+            c.workload.ops.drain(i..end);
+            if !c.workload.ops.is_empty() && abort_probe(&c).is_some() {
+                best = c;
+                changed = true;
+                any = true;
+            } else {
+                i += chunk;
+            }
+        }
+        if chunk == 1 && !any {
+            break;
+        }
+        if !any {
+            chunk /= 2;
+        }
+    }
+    (best, changed)
+}
+
 pub fn cmd_worker(pos: &[String], flags: &BTreeMap<String, String>) -> i32 {
     let prop = pos.first().cloned().unwrap_or_default();
     let tier = tier_from(flags);
@@ -127,6 +242,8 @@ pub fn cmd_worker(pos: &[String], flags: &BTreeMap<String, String>) -> i32 {
         }
         let rs = props::run_seed(seed, &prop, &tier, i);
         let case = props::gen_case(&prop, rs, &tier, i);
+        // breadcrumb for the driver: which run a dying worker was executing (see alloc.rs)
+        println!("RUN {i}");
         let out = run_any(&case);
         rep.runs += 1;
         rep.counters.add(&out.counters);
@@ -224,22 +341,40 @@ pub fn cmd_run(pos: &[String], flags: &BTreeMap<String, String>) -> i32 {
     println!("casim-{} property={prop} tier={tier} seed={seed} runs={runs} workers={workers}", crate::BUILD);
 
     let exe = std::env::current_exe().expect("current exe");
-    let mut children = Vec::new();
-    for w in 0..workers.min(runs.max(1)) {
+    let spawn = |offset: u64| {
         let mut c = Command::new(&exe);
-        c.arg("worker").arg(&prop).args(["--tier", &tier, "--seed", &seed.to_string(), "--runs", &runs.to_string(), "--stride", &workers.to_string(), "--offset", &w.to_string(), "--deadline", &deadline.to_string()]);
+        c.arg("worker").arg(&prop).args(["--tier", &tier, "--seed", &seed.to_string(), "--runs", &runs.to_string(), "--stride", &workers.to_string(), "--offset", &offset.to_string(), "--deadline", &deadline.to_string()]);
         c.stdout(Stdio::piped()).stderr(Stdio::inherit());
-        children.push(c.spawn().expect("spawn worker"));
+        c.spawn().expect("spawn worker")
+    };
+    let mut children = std::collections::VecDeque::new();
+    for w in 0..workers.min(runs.max(1)) {
+        children.push_back((spawn(w), 0u32));
     }
     let mut total = WorkerReport::default();
     let mut fps: BTreeSet<u64> = BTreeSet::new();
     let mut harness_fail = false;
-    for mut ch in children {
+    while let Some((mut ch, respawns)) = children.pop_front() {
         let mut s = String::new();
         ch.stdout.take().unwrap().read_to_string(&mut s).ok();
         let status = ch.wait().expect("wait worker");
         let line = s.lines().rev().find(|l| l.starts_with('{')).unwrap_or("");
         match serde_json::from_str::<WorkerReport>(line) {
+            _ if !status.success() && aborted_run(&s).is_some() => {
+                // the code under test asked for an allocation that cannot exist and the runtime aborted
+                // the process: that is the verdict of the run the worker was executing; the rest of this
+                // worker's share goes to a fresh worker
+                let (i, size) = aborted_run(&s).unwrap();
+                let rs = props::run_seed(seed, &prop, &tier, i);
+                let case = props::gen_case(&prop, rs, &tier, i);
+                total.runs += 1;
+                total.found.push(Found { run: i, seed: rs, case, failure: abort_failure(&prop, size) });
+                if i + workers < runs && respawns < 40 {
+                    children.push_back((spawn(i + workers), respawns + 1));
+                } else if i + workers < runs {
+                    total.truncated = true;
+                }
+            }
             Ok(r) if status.success() => {
                 total.runs += r.runs;
                 total.counters.add(&r.counters);
@@ -288,8 +423,13 @@ pub fn cmd_run(pos: &[String], flags: &BTreeMap<String, String>) -> i32 {
         }
         // minimise, then verify the replay in a fresh process before announcing it
         let min_budget = if tier == "thorough" { 60 } else { 30 };
-        let (mcase, mfail, minimised) = crate::minimise::minimise(&prop, &f.case, &f.failure, min_budget, &known);
-        let file = replay_dir.join(format!("{prop}-{}-{}.json", f.seed, f.run));
+        let (mcase, mfail, minimised) = if class == ABORT_CLASS {
+            let (c, changed) = minimise_abort(&f.case, min_budget);
+            (c, f.failure.clone(), changed)
+        } else {
+            minimise_in_child(&prop, &f, min_budget)
+        };
+        let file = replay_dir.join(format!("{prop}-{}-{}-{}.json", crate::BUILD, f.seed, f.run));
         let rp = Replay { property: prop.clone(), class: class.clone(), tier: tier.clone(), seed, run: f.run, build: crate::BUILD.into(), minimised, case: mcase, violation: mfail };
         std::fs::write(&file, serde_json::to_string_pretty(&rp).unwrap()).expect("write replay");
         let st = Command::new(&exe).arg("replay").arg(&file).stdout(Stdio::null()).status();
@@ -332,10 +472,11 @@ pub fn cmd_run(pos: &[String], flags: &BTreeMap<String, String>) -> i32 {
         wall,
         if total.truncated { " (TRUNCATED by deadline)" } else { "" }
     );
-    if harness_fail {
-        return 2;
+    // a violation that replayed in a fresh process stands even if some worker had a harness problem
+    if violations > 0 {
+        return 1;
     }
-    if violations > 0 { 1 } else { 0 }
+    if harness_fail { 2 } else { 0 }
 }
 
 fn write_evidence(prop: &str, sp: &Spec, tier: &str, seed: u64, t: &WorkerReport, distinct: u64, wall: f64, violations: u64, workers: u64) {
@@ -482,6 +623,19 @@ pub fn cmd_replay(pos: &[String], _flags: &BTreeMap<String, String>) -> i32 {
     if rp.build != crate::BUILD {
         eprintln!("replay needs the {} build", rp.build);
         return 2;
+    }
+    if rp.class == ABORT_CLASS {
+        // the violation is the death of the process: replay it in a child
+        return match abort_probe(&rp.case) {
+            Some(size) => {
+                println!("REPRODUCED property={} class={} op#0\n{}", rp.property, rp.class, abort_failure(&rp.property, size).message);
+                1
+            }
+            None => {
+                println!("NOT REPRODUCED: the case does not abort the process");
+                0
+            }
+        };
     }
     let out = run_any(&rp.case);
     if let Some(e) = out.harness_error {
